@@ -128,19 +128,22 @@ func (e *Engine) callFunc(fr *Frame, st *State, ins ssa.Instruction, fn *ssa.Fun
 	}
 	c := e.contractFor(fn)
 	mode := ""
-	if fr.contract != nil {
+	for f := fr; f != nil && mode == ""; f = f.caller {
+		if f.contract == nil {
+			continue
+		}
 		k := fnKey(fn)
 		short := k
 		if i := strings.LastIndex(short, "/"); i >= 0 {
 			short = short[i+1:]
 		}
-		local := strings.TrimPrefix(k, fr.contract.PkgPath+".")
+		local := strings.TrimPrefix(k, f.contract.PkgPath+".")
 		for _, key := range []string{k, short, local, fn.Name()} {
-			if m, ok := fr.contract.Calls[key]; ok {
+			if m, ok := f.contract.Calls[key]; ok {
 				mode = m
 				break
 			}
-			if fr.contract.Inline[key] {
+			if f.contract.Inline[key] {
 				mode = "inline"
 				break
 			}
@@ -154,6 +157,16 @@ func (e *Engine) callFunc(fr *Frame, st *State, ins ssa.Instruction, fn *ssa.Fun
 			mode = "contract"
 		default:
 			mode = "inline"
+		}
+	}
+	if mode == "contract" && !fr.ghost && e.hasConcreteOwnIface(fn, args) {
+		// The callee's contract was proved against the abstract contract of its interface parameters.
+		// An argument whose dynamic type is one of the library's own types (with memory effects of
+		// its own) does not in general refine that contract, so the callee is executed instead.
+		if len(fn.Blocks) > 0 && (!hasLoops(fn) || (c != nil && len(c.Loops) > 0)) {
+			mode = "inline"
+		} else {
+			unsupported("call to %s with a concrete library type as interface argument: contract not applicable and callee not inlinable", fnKey(fn))
 		}
 	}
 	switch mode {
@@ -183,8 +196,13 @@ func (e *Engine) callFunc(fr *Frame, st *State, ins ssa.Instruction, fn *ssa.Fun
 			child.vals[fv] = bindings[i]
 		}
 	}
+	entryCond := st.cond
 	res, out := e.runBody(child, st)
 	*st = *out
+	if child.ghost && !st.dead {
+		// specification code is total: every path returns, so the merged return condition is the entry condition
+		st.cond = entryCond
+	}
 	return packResults(res)
 }
 
@@ -790,4 +808,34 @@ func (e *Engine) appendBuiltin(fr *Frame, st *State, ins ssa.Instruction, cc *ss
 	return tb.Ite(fits,
 		tb.Ctor("Slice", e.sBase(s), soff, newLen, e.sCap(s)),
 		tb.Ctor("Slice", nref, tb.BV(0, 64), newLen, ncap))
+}
+
+
+// hasConcreteOwnIface: some interface-typed argument carries a known dynamic type defined in the
+// packages under verification.
+func (e *Engine) hasConcreteOwnIface(fn *ssa.Function, args []Val) bool {
+	for i, p := range fn.Params {
+		if _, ok := p.Type().Underlying().(*types.Interface); !ok || i >= len(args) {
+			continue
+		}
+		t, ok := args[i].(*Term)
+		if !ok || t.Sort != SIface {
+			continue
+		}
+		tag := e.tb.Acc(t, 0)
+		if tag.Op != "intlit" {
+			continue
+		}
+		dt := e.tagTypes[int(tag.Val.Int64())]
+		if dt == nil {
+			continue
+		}
+		if pt, ok := dt.(*types.Pointer); ok {
+			dt = pt.Elem()
+		}
+		if n, ok := dt.(*types.Named); ok && n.Obj().Pkg() != nil && strings.HasPrefix(n.Obj().Pkg().Path(), "github.com/gobwas/ws") {
+			return true
+		}
+	}
+	return false
 }
